@@ -41,7 +41,7 @@ def run_D(prop, tier):
     lemmas = []
     files = []
     from .contracts import cc as _cc
-    if any(reg.contracts[q].file.endswith(("utils/cc.py", "utils/visits.py")) or q.endswith("subhypergraph_largest_component") for q in quals):
+    if any(reg.contracts[q].file.endswith(("utils/cc.py", "utils/visits.py", "motifs/utils.py")) or q.endswith("subhypergraph_largest_component") for q in quals):
         files = list(_cc.LEAN_LEMMAS)
     # the history-level induction (per-operation refinement => every history refines) for the four container properties and the
     # double-counting identity behind "degrees sum to the total size" (C08)
